@@ -8,6 +8,11 @@ CLAIMED = {
    note="trusts the harness's deny list (blocking / world-modifying primitives are not called) and the worker protocol; time-outs are inconclusive",
    ref="6 C06"),
 }
+CLAIMED["C09"]=dict(
+   technique="property-based testing / fuzzing of the front end: proptest-generated text (random UTF-8, token soup, token-level mutants of every .glu file in the repository) through parse_partial_expr and typecheck_str in disposable worker processes; oracle = returns + every error span inside its file on character boundaries + errors render",
+   text="Exploration: 20k (quick) to 1M (thorough) generated inputs <= 4 KiB plus a hand list and the whole corpus; process death, caught panics, ill-formed spans and unrenderable errors are violations; three recorded known findings (checker ICEs on ill-kinded/ill-formed types) are matched by panic site + input feature so the search continues behind them.",
+   note="moderate nesting fixed as <= 64 generated levels on an 8 MiB stack; watchdog time-outs are inconclusive",
+   ref="6 C09")
 NOT_YET = {}
 def main():
     props=[json.loads(l) for l in open('/verif/properties.jsonl')]
